@@ -262,6 +262,7 @@ def c15(tier, seed):
 
 
 import schedprops  # noqa: E402
+import cliprops  # noqa: E402
 
 
 def _sched_plan(tier, main_grid_count, term_count):
@@ -276,6 +277,8 @@ def c03(tier, seed):
     plan = _sched_plan(tier, 12000 if tier == "quick" else 400000, 3000 if tier == "quick" else 100000)
     chk, agg, extra = schedprops.sched_check("C03", tier, seed, plan, "", 0)
     extra["real_threads_under_tsan"] = _tsan_part(chk, "C03", tier)
+    if tier == "thorough":
+        extra["production_constants_oversubscribed"] = cliprops.prod_oversubscribed(chk, seed, 64)
     return chk.finish(agg.n, len(agg.sigs),
                       "each evaluation is one seeded schedule of the real pipeline (forced-include scheduler; strategies uniform / "
                       "sticky 0,50,90 / PCT depth 1-3 / starve-one-thread, optional spurious wake-ups) on inputs of 0-6 chunks incl. exact "
